@@ -423,6 +423,10 @@ class PyInterp:
                     return s.intrinsic('modulo', [l, r])
                 raise NotEncoded('float %')
             if isinstance(op, ast.Pow):
+                if s.is_int(l) and s.is_int(r):
+                    # Python: int ** negative int is a float (numpy integers raise ValueError), never the truncated
+                    # integer Fortran computes: outside the integer model -> not defined (a candidate for the replay)
+                    s.defined.append(r >= 0)
                 return s.power(l, r)
         finally:
             s.guard = saved
